@@ -82,7 +82,7 @@ Print Assumptions C15_white_luminance_u8.
 
 Theorem C15_clip_modes_now :
   clip_buffer_initial_opaque = true /\ clip_children_mode = BClear /\
-  clip_group_children_mode = BSourceOver /\ clip_group_merge_mode = BXor.
+  clip_group_children_mode = BSourceOver /\ clip_group_merge_mode = BXor /\ clip_mode_flows_unchanged = true.
 Proof. exact clip_modes_now. Qed.
 Print Assumptions C15_clip_modes_now.
 
